@@ -963,6 +963,25 @@ func (e *Enc) rebindRenamed(li *loopInfo, vars map[string]Term) {
 			cands = append(cands, name)
 		}
 	}
+	if len(cands) > 1 {
+		// several unmentioned locals: the usual case is a renamed or reshaped INDUCTION variable, so prefer the
+		// phis of this loop's own head (a wrong guess can only fail a proof)
+		var phis []string
+		for _, in := range li.head.Instrs {
+			phi, ok := in.(*ssa.Phi)
+			if !ok {
+				break
+			}
+			for _, c := range cands {
+				if c == phi.Comment {
+					phis = append(phis, c)
+				}
+			}
+		}
+		if len(phis) == 1 {
+			cands = phis
+		}
+	}
 	if len(cands) == 1 {
 		vars[unresolved[0]] = vars[cands[0]]
 		fmt.Fprintln(os.Stderr, "note: "+e.key+": "+fmt.Sprintf("loop %d: contract variable %q is not in the code any more; bound to the only local no clause mentions, %q (renamed?)", li.ordinal, unresolved[0], cands[0]))
